@@ -692,7 +692,12 @@ class ProductKernel(Kernel):
                 res = res * to_dense(next_term)
             else:
                 if not diag:
-                    res = res * to_linear_operator(next_term)
+                    next_term = to_linear_operator(next_term)
+                    if res.shape != next_term.shape:
+                        # The product of two (non-dense) LinearOperators does not broadcast batch dimensions
+                        shape = torch.broadcast_shapes(res.shape, next_term.shape)
+                        res, next_term = res.expand(shape), next_term.expand(shape)
+                    res = res * next_term
                 else:
                     res = res * next_term
 
